@@ -2,7 +2,9 @@
 package carrier
 
 import (
+	"net/url"
 	"reflect"
+	"strings"
 
 	"gitee.com/xuesongtao/protoc-go-valid/valid"
 )
@@ -16,10 +18,11 @@ const (
 	Map       Kind = "map"       // map[string]T
 	MapIface  Kind = "map-iface" // map[string]interface{}
 	SliceMap  Kind = "slice-map" // []map[string]T
-	Url       Kind = "url"       // strings only
+	Url       Kind = "url"       // strings only, raw in the query string
+	UrlEsc    Kind = "url-esc"   // strings only, the value percent-encoded (carries '%' and '+', which survive the library's whole-URL decoding)
 )
 
-var All = []Kind{StructTag, StructRM, Var, Map, MapIface, SliceMap, Url}
+var All = []Kind{StructTag, StructRM, Var, Map, MapIface, SliceMap, Url, UrlEsc}
 
 // Box is the named carrier type for per-call rules.
 type Box[T any] struct{ F T }
@@ -35,7 +38,7 @@ func PathPrefix(k Kind, v reflect.Value) string {
 		return "map[k]"
 	case SliceMap:
 		return "[0]map[k]"
-	case Url:
+	case Url, UrlEsc:
 		return "k"
 	}
 	return ""
@@ -133,7 +136,9 @@ func boxOf(v reflect.Value) interface{} {
 func Supports(k Kind, v reflect.Value) bool {
 	switch k {
 	case Url:
-		return v.Kind() == reflect.String
+		return v.Kind() == reflect.String && !strings.ContainsAny(v.String(), "&=?#%+")
+	case UrlEsc:
+		return v.Kind() == reflect.String && !strings.ContainsAny(v.String(), "&=?#")
 	case StructRM:
 		return boxOf(v) != nil
 	}
@@ -175,6 +180,8 @@ func Validate(k Kind, v reflect.Value, rules string) (string, bool) {
 		err = valid.Map(s.Interface(), valid.RM{"k": rules})
 	case Url:
 		err = valid.Url("http://h/p?k="+v.String(), valid.RM{"k": rules})
+	case UrlEsc:
+		err = valid.Url("http://h/p?a=1&k="+url.QueryEscape(v.String())+"&z=2", valid.RM{"k": rules})
 	}
 	if err == nil {
 		return "", true
